@@ -256,3 +256,23 @@ def c08(seed, tier, broken):
 
     found, ev, counts = M.search_representation(seed, _n(tier, broken, 120, 5000))
     return dict(found=found, evaluations=ev, variants=counts)
+
+
+def c13(seed, tier, broken):
+    """export -> import on the real code, every number bitwise modulo the allowed canonicalisation, chi2 at 1e-12"""
+    from search import g2o as S
+
+    return S.search_c13(seed, _n(tier, broken, 150, 6000))
+
+
+def c14(seed, tier, broken):
+    """Graph.from_g2o and the load.py wrappers vs an independent reference parser"""
+    from search import g2o as S
+
+    return S.search_c14(seed, _n(tier, broken, 150, 6000))
+
+
+def replay_g2o(rep):
+    from search import g2o as S
+
+    return S.replay(rep)
